@@ -47,6 +47,10 @@ Proof.
 Qed.
 
 (* ---------------- print / parse ---------------- *)
+Lemma dec_eq3 : forall (n n' : bool) (m m' e e' : Z), n = n' -> m = m' -> e = e' -> (n, m, e) = (n', m', e').
+Proof. intros; subst; reflexivity. Qed.
+
+
 Lemma head_nondigit_exp : forall x, head_nondigit (print_exp x).
 Proof. intros [|up es ed]; cbn; [exact I|]. destruct up; reflexivity. Qed.
 
@@ -79,7 +83,7 @@ Proof.
   rewrite Hfrac.
   destruct (ip ++ fp) as [|d0 rest0] eqn:Hcat; [exfalso; apply Hne; reflexivity|]. rewrite <- Hcat.
   destruct x as [|up es ed].
-  - cbn [print_exp]. f_equal. f_equal. lia.
+  - cbn [print_exp]. reflexivity.
   - cbn [print_exp]. destruct Hx as [Hed Hedne].
     assert (HE : ((if up then c_E else c_e) =? c_E) || ((if up then c_E else c_e) =? c_e) = true) by (destruct up; reflexivity).
     rewrite HE.
@@ -139,9 +143,6 @@ Lemma dec_value_eqb_spec : forall a b, dec_value_eqb a b = true <-> dec_value_eq
 Proof. intros a b. unfold dec_value_eqb, dec_value_eq. apply Z.eqb_eq. Qed.
 
 (* ---------------- respelling keeps the value ---------------- *)
-Lemma dec_eq3 : forall (n n' : bool) (m m' e e' : Z), n = n' -> m = m' -> e = e' -> (n, m, e) = (n', m', e').
-Proof. intros; subst; reflexivity. Qed.
-
 Lemma of_nat_len_cons : forall (d : Z) (l : list Z), Z.of_nat (length (d :: l)) = Z.of_nat (length l) + 1.
 Proof. intros d l. cbn [length]. lia. Qed.
 
@@ -162,7 +163,7 @@ Proof.
     apply (value_eq_at _ _ (X - (n + 1))); cbn [dec_exp dec_signed]; try lia.
     replace (X - n - (X - (n + 1))) with 1 by lia.
     replace (X - (n + 1) - (X - (n + 1))) with 0 by lia.
-    rewrite Z.pow_1_r, Z.pow_0_r. destruct (match s with SMinus => true | _ => false end); lia.
+    rewrite Z.pow_1_r, Z.pow_0_r. destruct (is_minus s); lia.
   - replace (if is_minus es then - digits_val 0 ed else digits_val 0 ed) with 0 by (rewrite H; destruct (is_minus es); reflexivity).
     apply dec_value_eq_refl.
   - rewrite H. apply dec_value_eq_refl.
@@ -229,7 +230,7 @@ Proof. intros [ | | ]; cbn; repeat constructor; unfold is_space, c_plus, c_minus
 Lemma plain_print : forall r, rend_ok r -> Forall plain_char (print r).
 Proof.
   intros [sg ip dot fp x] (Hip & Hfp & Hdot & Hne & Hx). cbn [r_sign r_ip r_dot r_fp r_exp] in *. unfold print. cbn [r_sign r_ip r_dot r_fp r_exp].
-  repeat apply Forall_app; repeat split.
+  apply Forall_app; split; [|apply Forall_app; split; [|apply Forall_app; split; [|apply Forall_app; split]]].
   - apply plain_sign.
   - apply plain_digits; exact Hip.
   - destruct dot; repeat constructor; unfold is_space, c_dot; lia.
@@ -246,11 +247,64 @@ Proof.
   cbn [orb]. rewrite !orb_true_r. reflexivity.
 Qed.
 
-Lemma leqb_c_head_neq : forall a s c t, a <> c -> leqb_c (a :: s) (c :: t) = false.
-Proof. intros a s c t H. cbn [leqb_c]. destruct (a =? c) eqn:E; [lia|reflexivity]. Qed.
+Lemma leqb_c_eq : forall a b, leqb_c a b = true -> a = b.
+Proof.
+  induction a as [|x a IH]; intros [|y b] H; cbn [leqb_c] in H; try discriminate; [reflexivity|].
+  apply andb_true_iff in H. destruct H as [H1 H2]. apply Z.eqb_eq in H1. subst y. f_equal. apply IH; exact H2.
+Qed.
 
-Lemma not_inf : forall s pre, Forall plain_char s -> leqb_c (lower s) (pre ++ s_inf) = false \/ True.
-Proof. intros; right; exact I. Qed.
+Lemma mem_dot_lower : forall s, mem_c c_dot s = true -> mem_c c_dot (lower s) = true.
+Proof.
+  unfold mem_c, lower. induction s as [|c r IH]; intros H; [discriminate|]. cbn [map existsb] in *.
+  apply orb_true_iff in H. destruct H as [H|H].
+  - apply Z.eqb_eq in H. subst c. reflexivity.
+  - rewrite (IH H). apply orb_true_r.
+Qed.
 
-Lemma lower_plain_no_i : forall c, plain_char c -> lower_c c <> 105 \/ c = 73.
-Proof. intros c [_ H]. unfold lower_c. destruct ((65 <=? c) && (c <=? 90)) eqn:E; [|left; exact H]. destruct (Z.eq_dec c 73); [right; assumption|left; lia]. Qed.
+Lemma not_inf_with_dot : forall s t, mem_c c_dot s = true -> mem_c c_dot t = false -> leqb_c (lower s) t = false.
+Proof.
+  intros s t Hs Ht. destruct (leqb_c (lower s) t) eqn:E; [|reflexivity].
+  apply leqb_c_eq in E. rewrite <- E in Ht. rewrite (mem_dot_lower s Hs) in Ht. discriminate.
+Qed.
+
+(* with a decimal point the text goes to the float factory (Decimal): decode_number agrees with parse_dec *)
+Theorem decode_number_print_dot : forall r, rend_ok r -> r_dot r = true ->
+  decode_number (print r) = Some (NDec (rend_dec r)).
+Proof.
+  intros r Hok Hdot. unfold decode_number.
+  rewrite (strip_plain _ (plain_print r Hok)).
+  pose proof (existsb_dot_print r Hdot) as Hmem.
+  rewrite (not_inf_with_dot (print r) s_inf Hmem eq_refl).
+  rewrite (not_inf_with_dot (print r) (c_plus :: s_inf) Hmem eq_refl).
+  rewrite (not_inf_with_dot (print r) (c_minus :: s_inf) Hmem eq_refl).
+  cbn [orb]. rewrite Hmem. rewrite (parse_print r Hok). reflexivity.
+Qed.
+
+(* ---------------- a derivation: 0.001 ~ 1E-3 ~ 1.0e-03 ---------------- *)
+Ltac rend_ok_tac := unfold rend_ok; cbn; repeat split; repeat constructor; unfold digit_ok; try lia; try discriminate.
+Ltac step_fwd R := eapply sn_trans; [eapply sn_step; [ | |R]; rend_ok_tac|].
+Ltac step_bwd R := eapply sn_trans; [apply sn_sym; eapply sn_step; [ | |R]; rend_ok_tac|].
+
+Lemma related_0_001_1E_3 :
+  same_number (mkRend SNone [0] true [0; 0; 1] ENone) (mkRend SNone [1] false [] (EExp true SMinus [3])).
+Proof.
+  (* 0.001 ~ 0.001E-0 *)
+  step_fwd ltac:(apply (rs_exp_zero SNone [0] true [0; 0; 1] true SMinus [0]); reflexivity).
+  (* 0.001E-0 ~ 00.01E-1 ~ 000.1E-2 ~ 0001.E-3 : the point moves right, read rs_shift_neg from right to left *)
+  step_bwd ltac:(apply (rs_shift_neg SNone [0] 0 [0; 1] true [1] [0]); reflexivity).
+  step_bwd ltac:(apply (rs_shift_neg SNone [0; 0] 0 [1] true [2] [1]); reflexivity).
+  step_bwd ltac:(apply (rs_shift_neg SNone [0; 0; 0] 1 [] true [3] [2]); reflexivity).
+  (* drop the leading zeros and the bare point *)
+  step_bwd ltac:(apply (rs_lead_zero SNone [0; 0; 1] true [] (EExp true SMinus [3]))).
+  step_bwd ltac:(apply (rs_lead_zero SNone [0; 1] true [] (EExp true SMinus [3]))).
+  step_bwd ltac:(apply (rs_lead_zero SNone [1] true [] (EExp true SMinus [3]))).
+  apply sn_sym. apply sn_step; [rend_ok_tac|rend_ok_tac|]. apply rs_dot.
+Qed.
+
+Lemma related_1E_3_10e_03 :
+  same_number (mkRend SNone [1] false [] (EExp true SMinus [3])) (mkRend SNone [1] true [0] (EExp false SMinus [0; 3])).
+Proof.
+  step_fwd ltac:(apply rs_dot).
+  step_fwd ltac:(apply (rs_trail_zero SNone [1] [] (EExp true SMinus [3]))).
+  apply sn_step; [rend_ok_tac|rend_ok_tac|]. apply rs_exp_case. reflexivity.
+Qed.
